@@ -85,7 +85,7 @@ def s24_record_symmetry(ctx):
         fields = adt["variants"][0]["fields"]
         fnames = [f[0] for f in fields]
         ftys = dict((f[0], f[1]) for f in fields)
-        ser = [b for b in prog.bodies.values() if re.search(r"<impl .*Serialize for %s>::serialize$" % re.escape(ty), b.path)]
+        ser = [b for b in prog.bodies.values() if re.search(r"<impl .*Serialize for %s>::serialize$" % re.escape(ty), b.path) or re.search(r"^<%s as [A-Za-z0-9_:]*Serialize>::serialize$" % re.escape(ty), b.path)]
         vis = [b for b in prog.bodies.values() if re.search(r"<impl .*Deserialize<'de> for %s>::deserialize::.*::visit_seq$" % re.escape(ty), b.path)]
         if len(ser) != 1 or len(vis) != 1:
             r.unrec(short, "Serialize::serialize ×%d / Deserialize visit_seq ×%d" % (len(ser), len(vis)), "?", "expected one of each")
